@@ -116,12 +116,8 @@ def _legacy_state(ctx, model):
         n = model.nodes.get(name)
         gm = n.cls.members.get("__getinitargs__")
         init = n.cls.members.get("__init__")
-        stored = set()
-        if init is not None:
-            for a in ast.walk(init.node):
-                if isinstance(a, ast.Attribute) and isinstance(a.ctx, ast.Store) \
-                        and isinstance(a.value, ast.Name) and a.value.id == "self":
-                    stored.add(a.attr)
+        from ..rules import self_attrs_written
+        stored = self_attrs_written(init.node) if init is not None else set()
         listed = set(f for f, _, _ in n.fields)
         ok = gm is not None and listed == stored
         ctx.ob(f"S/legacy-state/{name}/initargs-cover-attributes", ok,
